@@ -54,7 +54,9 @@ def run(module, cfg, mc_text=None, workers=16, dump=False, simulate=None, depth=
     with open(os.path.join(d, module + '.cfg'), 'w') as f:
         f.write(cfg)
     md = os.path.join(d, 'md')
-    cmd = ['java', '-XX:+UseParallelGC', '-XX:ParallelGCThreads=4', '-Xss64m', '-Xmx8g', '-cp', JAR, 'tlc2.TLC',
+    jtmp = os.path.join(d, 'jtmp')                   # (TLC / SANY unpack their standard modules into java.io.tmpdir: kept inside the scratch directory)
+    os.makedirs(jtmp, exist_ok=True)
+    cmd = ['java', '-Djava.io.tmpdir=' + jtmp, '-XX:+UseParallelGC', '-XX:ParallelGCThreads=4', '-Xss64m', '-Xmx8g', '-cp', JAR, 'tlc2.TLC',
            '-workers', str(workers), '-metadir', md, '-noGenerateSpecTE']
     if not deadlock:
         cmd += ['-deadlock']
@@ -157,7 +159,7 @@ def parse_coverage(out):
 
 
 def sany(path):
-    p = subprocess.run(['java', '-cp', JAR, 'tla2sany.SANY', os.path.basename(path)], cwd=os.path.dirname(path),
+    p = subprocess.run(['java', '-Djava.io.tmpdir=' + os.path.dirname(path), '-cp', JAR, 'tla2sany.SANY', os.path.basename(path)], cwd=os.path.dirname(path),
                        stdout=subprocess.PIPE, stderr=subprocess.STDOUT)
     out = p.stdout.decode()
     return ('Semantic errors' not in out and 'Parse Error' not in out and 'Fatal' not in out and p.returncode == 0), out
